@@ -31,3 +31,84 @@ package builder
 //@ ensures err == nil ==> 0 <= result && result < 63 && (1 << result) == v
 //@ ensures err == nil <==> (v > 0 && (v & (v - 1)) == 0)
 //@ assigns nothing
+
+// ---------------------------------------------------------------------------------------------
+// C16: children are committed before their parents, and a failed write yields no link.
+// C11: sizes.
+
+//@ props C16
+
+//@ func data/builder.sizedStore
+//@ ensures err == nil ==> result0 != nil && stored(result0)
+//@ ensures monotone: forall l Ref :: old(stored(l)) ==> stored(l)
+//@ inst monotone: l: l
+//@ assigns stored(result0)
+
+//@ func data/builder.BuildUnixFSSymlink
+//@ ensures error-implies-nil-link: err != nil ==> result0 == nil
+//@ ensures link-implies-stored: err == nil ==> result0 != nil && stored(result0)
+//@ ensures monotone: forall l Ref :: old(stored(l)) ==> stored(l)
+//@ inst monotone: l: l
+
+//@ spec def allStored(cs []data/builder.fileShardMeta) bool = forall i int :: 0 <= i && i < len(cs) ==> (cs[i].link != nil ==> stored(cs[i].link))
+
+//@ func data/builder.packFileChildren
+//@ requires children-stored: allStored(children)
+//@ at call data/builder.BuildUnixFSDirectoryEntry#1 assert child-stored: callee_hash != nil ==> stored(callee_hash)
+//@ inst child-stored: i: rangeindex + 1
+//@ loop 0 invariant children-stored: allStored(children)
+//@ inst children-stored: i: i
+
+//@ func data/builder.fileTreeRecursive
+//@ requires children-stored: allStored(children)
+//@ ensures error-implies-nil-link: err != nil ==> result0.link == nil
+//@ ensures link-implies-stored: err == nil && result0.link != nil ==> stored(result0.link)
+//@ ensures monotone: forall l Ref :: old(stored(l)) ==> stored(l)
+//@ inst monotone: l: l
+//@ loop 0 invariant children-stored: allStored(children)
+//@ inst children-stored: i: i
+//@ loop 0 invariant monotone-so-far: forall l Ref :: old(stored(l)) ==> stored(l)
+//@ inst monotone-so-far: l: l
+//@ at call data/builder.packFileChildren#1 assert children-stored-before-parent: allStored(children)
+//@ inst children-stored-before-parent: i: i
+//@ assigns stored(result0.link)
+
+//@ func data/builder.BuildUnixFSFile
+//@ ensures error-implies-nil-link: err != nil ==> result0 == nil
+//@ ensures link-implies-stored: err == nil ==> result0 != nil && stored(result0)
+//@ ensures monotone: forall l Ref :: old(stored(l)) ==> stored(l)
+//@ inst monotone: l: l
+//@ loop 0 invariant monotone-so-far: forall l Ref :: old(stored(l)) ==> stored(l)
+//@ inst monotone-so-far: l: l
+//@ loop 0 invariant prev-stored: allStored(prev) && (prev == nil || len(prev) == 1)
+//@ inst prev-stored: i: i
+
+//@ func (*data/builder.shard).serialize
+//@ ensures error-implies-nil-link: err != nil ==> result0 == nil
+//@ ensures link-implies-stored: err == nil ==> result0 != nil && stored(result0)
+//@ ensures monotone: forall l Ref :: old(stored(l)) ==> stored(l)
+//@ inst monotone: l: l
+//@ loop 0 invariant monotone-so-far: forall l Ref :: old(stored(l)) ==> stored(l)
+//@ inst monotone-so-far: l: l
+//@ at call data/builder.BuildUnixFSDirectoryEntry#1 assert child-shard-stored-before-parent: stored(callee_hash)
+
+//@ func data/builder.BuildUnixFSShardedDirectory
+//@ ensures error-implies-nil-link: err != nil ==> result0 == nil
+//@ ensures link-implies-stored: err == nil ==> result0 != nil && stored(result0)
+//@ ensures monotone: forall l Ref :: old(stored(l)) ==> stored(l)
+//@ inst monotone: l: l
+
+//@ func data/builder.BuildUnixFSDirectory
+//@ ensures error-implies-nil-link: err != nil ==> result0 == nil
+//@ ensures link-implies-stored: err == nil ==> result0 != nil && stored(result0)
+//@ ensures monotone: forall l Ref :: old(stored(l)) ==> stored(l)
+//@ inst monotone: l: l
+
+//@ func data/builder.BuildUnixFSRecursive
+//@ ensures error-implies-nil-link: err != nil ==> result0 == nil
+//@ ensures link-implies-stored: err == nil ==> result0 != nil && stored(result0)
+//@ ensures monotone: forall l Ref :: old(stored(l)) ==> stored(l)
+//@ inst monotone: l: l
+//@ loop 0 invariant monotone-so-far: forall l Ref :: old(stored(l)) ==> stored(l)
+//@ inst monotone-so-far: l: l
+//@ at call data/builder.BuildUnixFSDirectoryEntry#1 assert entry-stored-before-directory: stored(callee_hash)
